@@ -143,9 +143,17 @@ func (db *DB) Compact() (CompactionResult, error) {
 		db.maintenanceMu.Unlock()
 	}()
 
-	db.mu.RLock()
+	// Seal the picked segments before releasing the lock, so no record can be
+	// added to a segment after it was picked.
+	db.mu.Lock()
 	segments := db.pickForCompaction()
-	db.mu.RUnlock()
+	for _, seg := range segments {
+		if err := db.datalog.sealSegment(seg); err != nil {
+			db.mu.Unlock()
+			return cr, err
+		}
+	}
+	db.mu.Unlock()
 	verifYield("compact.picked")
 
 	for _, seg := range segments {
